@@ -462,3 +462,21 @@ pub proof fn lemma_perm_prefix(a: Seq<Variable>, b: Seq<Variable>)
 
 /// the prefix built from the rule's variables covers them
 pub open spec fn gv_covers(gv: Seq<Variable>, r: asp::Rule) -> bool { forall|k: VKey| rule_in(r, k) ==> #[trigger] bound_by(gv, k) }
+
+// ---- contracts of the translators at the level of rules and programs ---------------------------------------------------------
+/// the head variables V taken from the list of fresh global names
+pub open spec fn globals_ok(globals: Seq<String>, r: asp::Rule) -> bool {
+    &&& head_args(r.head).len() <= globals.len()
+    &&& distinct_names(globals)
+    &&& forall|i: int, k: VKey| 0 <= i < globals.len() && #[trigger] rule_in(r, k) ==> k != #[trigger] zkey(globals[i])
+}
+
+/// the list of head variables serves every rule of the program
+pub open spec fn program_globals_ok(globals: Seq<String>, p: asp::Program) -> bool {
+    forall|i: int| 0 <= i < p.rules@.len() ==> #[trigger] globals_ok(globals, p.rules@[i])
+}
+
+/// tau*(P): one sentence per rule, each true exactly when every ground instance of its rule is satisfied
+pub open spec fn theory_ok(t: Theory, p: asp::Program) -> bool {
+    t.formulas@.len() == p.rules@.len() && forall|i: int| 0 <= i < p.rules@.len() ==> #[trigger] rule_ok(t.formulas@[i], p.rules@[i])
+}
